@@ -197,6 +197,30 @@ def xml_entities(m, variant):
     return _zip(parts)
 
 
+@family("xml-entities-utf16", "pptx", variants=("pptx-slides",), ms=(2, 20, 60))
+def xml_entities_utf16(m, variant):
+    """A deck of m slides whose slide parts are UTF-16 encoded and declare nested internal entities (about 7 MB of text per slide, below the
+    threshold at which the XML library's own amplification guard starts to look): a guard that searches the raw bytes for an ASCII '<!DOCTYPE' misses them."""
+    import zipfile
+    from vf.gen import ooxml
+    from vf.gen.tokens import make
+    doc = {"props": {}, "units": [{"name": None, "blocks": [{"k": "p", "inl": [{"k": "t", "tok": make("B", 6000 + i), "sty": 0}], "h": None}], "notes": None} for i in range(m)], "header": None, "footer": None, "comments": []}
+    base = ooxml.render_pptx(doc)
+    ents = '<!ENTITY e0 "' + "ZX00001 " * 9 + '">' + "".join(f'<!ENTITY e{i} "{("&e%d;" % (i - 1)) * 10}">' for i in range(1, 6))     # 72 chars x 10^5
+    zin = zipfile.ZipFile(io.BytesIO(base))
+    buf = io.BytesIO()
+    with zipfile.ZipFile(buf, "w", zipfile.ZIP_DEFLATED) as out:
+        for zi in zin.infolist():
+            data = zin.read(zi.filename)
+            if zi.filename.startswith("ppt/slides/slide") and zi.filename.endswith(".xml"):
+                text = data.decode("utf-8")
+                decl_end = text.index("?>") + 2
+                body = text[decl_end:].replace("<a:t>", "<a:t>&e5; ", 1)
+                data = ('<?xml version="1.0" encoding="UTF-16" standalone="yes"?><!DOCTYPE sld [' + ents + "]>" + body).encode("utf-16")
+            out.writestr(zipfile.ZipInfo(zi.filename, date_time=(2024, 3, 1, 12, 0, 0)), data, compress_type=zipfile.ZIP_DEFLATED)
+    return buf.getvalue()
+
+
 # ---- nesting -----------------------------------------------------------------------------------------------------
 @family("nesting", "docx", variants=("docx-tables", "docx-unknown", "html-div", "html-table", "rtf-groups", "odt-lists", "odt-spans", "epub-div", "json-arrays"), ms=(10, 300, 3000, 60000))
 def nesting(m, variant):
